@@ -38,6 +38,11 @@ var clientConfigText = map[string]string{
 	"replaced-own":    "http.DefaultClient = &http.Client{Transport: a Clone of http.DefaultTransport with ResponseHeaderTimeout, Timeout: 10 min, Jar: cookiejar}",
 }
 
+// proxyHonouringConfigs are the configurations under which an un-pinned call
+// (which goes through whatever is on http.DefaultClient) consults the
+// environment for a proxy.
+var proxyHonouringConfigs = []string{"stock", "own-clone", "wrapper", "replaced-own", "own-nokeepalive", "replaced"}
+
 // ownTransportConfig reports whether, under the configuration, http.DefaultClient.Transport
 // is an *http.Transport of the process's own.
 func ownTransportConfig(c string) bool {
@@ -60,6 +65,11 @@ func clientConfigFor(engine string, batchNo int) string {
 		}
 		own := []string{"own-clone", "own-fresh", "own-tls", "replaced-own", "own-proxy", "own-nokeepalive"}
 		return own[(batchNo/2)%len(own)]
+	}
+	if engine == "host" {
+		// names reach their listener through the CONNECT proxy named by HTTPS_PROXY:
+		// configurations whose transport asks http.ProxyFromEnvironment, as the stock one does
+		return proxyHonouringConfigs[batchNo%len(proxyHonouringConfigs)]
 	}
 	if batchNo%2 == 0 {
 		return "stock"
